@@ -124,8 +124,11 @@ bit_slicer_tmpl(vbi_bit_slicer *d, uint8_t *raw,
 			raw0 = (raw[0 + endian] + raw[1 - endian] * 256) & mask;
 			raw1 = (raw[2 + endian] + raw[3 - endian] * 256) & mask;
 			tr = d->thresh >> THRESH_FRAC;
-			d->thresh += ((raw0 - tr) * (int) ABS(raw1 - raw0)) >>
-				((bpp == 15) ? 2 : 3);
+			/* raw0 - tr is unsigned: convert before scaling down, a
+			   logical shift of the wrapped difference wrecks thresh. */
+			d->thresh += (int)(((long long)(int)(raw0 - tr)
+					    * (int) ABS(raw1 - raw0))
+					   / ((bpp == 15) ? 4 : 8));
 			t = raw0 * OVERSAMPLING;
 		} else {
 			tr = d->thresh >> THRESH_FRAC;
@@ -344,8 +347,9 @@ vbi_bit_slicer_init(vbi_bit_slicer *slicer,
 		    int cri_bits, int frc_bits, int payload,
 		    vbi_modulation modulation, vbi_pixfmt fmt)
 {
-	unsigned int c_mask = (unsigned int)(-(cri_bits > 0)) >> (32 - cri_bits);
-	unsigned int f_mask = (unsigned int)(-(frc_bits > 0)) >> (32 - frc_bits);
+	/* No shift by 32 when cri_bits or frc_bits is zero. */
+	unsigned int c_mask = (cri_bits > 0) ? ~0U >> (32 - cri_bits) : 0;
+	unsigned int f_mask = (frc_bits > 0) ? ~0U >> (32 - frc_bits) : 0;
 	int gsh = 0;
 
 	slicer->func = bit_slicer_1;
